@@ -608,7 +608,8 @@ func (s *Service) ProcessRequest(ctx *core.Context, m map[string]interface{}, ou
 				case map[string]interface{}:
 					_, err = s.ProcessRequest(ctx, m, out)
 					if err != nil {
-						problem := fmt.Sprintf(`{"error":"%s"}`, err.Error())
+						msg, _ := json.Marshal(err.Error())
+						problem := fmt.Sprintf(`{"error":%s}`, msg)
 						_, err = out.Write([]byte(problem))
 					}
 				default:
